@@ -178,7 +178,7 @@ def execute(case):
         ejks[t] = {tuple(r["a"]) + tuple(r["b"]): r["w"] / DEN for r in rows if r["w"] > 0 or case.get("keep_zero_keys")}
     tr = {"case": case, "V": list(range(n)), "jd": [list(j) for j in case["jd"]], "tops": list(case["tops"]),
           "target": case["target"], "g0": _graph_edges(net.G), "g0_after": [], "input_annotations_same": True,
-          "output_annotations_same": True, "gout": [], "vout": [], "raised": "", "timeout": False,
+          "output_annotations_same": True, "gout": [], "gout_again": [], "vout": [], "raised": "", "timeout": False,
           "steps_known": False, "steps": [], "aborted": False, "distance": bool(case.get("distance"))}
     nattr0 = {v: dict(net.G.nodes[v]) for v in net.G.nodes()}
     try:
@@ -228,6 +228,7 @@ def execute(case):
     orc = Oracle()
     orc.zero_draws = case.get("zero_draws", 0)
     steps = []
+    recording = [True]
     last = [tr["g0"]]
     if case.get("wrap", True) and callable(getattr(mcmc, "swap_condition", None)):
         orig = mcmc.swap_condition
@@ -244,6 +245,8 @@ def execute(case):
             if len(new) == 1 and new[0][1] > 0:
                 st["drew"], st["W"], st["j"] = True, new[0][1], max(new[0][2], 0)
                 st["uz"] = new[0][2] < 0
+            if not recording[0]:
+                return res
             if len(steps) < 1500:
                 steps.append(st)
             else:
@@ -276,8 +279,20 @@ def execute(case):
         tr["gout"] = _graph_edges(R)
         tr["vout"] = [_ix(v) for v in R.nodes()]
         tr["output_annotations_same"] = {v: dict(R.nodes[v]) for v in R.nodes()} == nattr0
+        tr["gout_again"] = tr["gout"]
+        if case.get("again") and not case.get("distance"):
+            # the returned graph belongs to the caller: rewiring once more with the same object must not change it
+            recording[0] = False
+            try:
+                mcmc.convergence_limit = 1
+                with watchdog(1):
+                    Oracle().run_seeded(77, mcmc.rewire, grid=GRIDW)
+            except Exception:
+                pass
+            tr["gout_again"] = _graph_edges(R)
     else:
         tr["gout"] = last[0] if not steps or not steps[-1]["result"] else last[0]
+        tr["gout_again"] = tr["gout"]
         tr["vout"] = list(range(n))
         if steps and steps[-1]["result"]:
             # the last accepted swap's effect was never observed: drop that call
